@@ -25,6 +25,7 @@ type c15Table struct {
 	Keys    []int    `json:"keys"`     // key indexes with votes
 	Votes   []uint64 `json:"votes"`    // their tallies
 	CPTime  uint64   `json:"cp_time"`  // checkpoint timestamp offset in slots
+	CPOff   uint64   `json:"cp_off"`   // plus this many ms: the epoch-closing block need not sit on a multiple of the interval
 	Slots   []int    `json:"slots"`    // block times to query: slot numbers from the epoch start
 	SubSlot []int    `json:"sub_slot"` // plus this many ms inside the slot
 }
@@ -58,6 +59,7 @@ func c15TableGen(t *rapid.T) c15Table {
 		c.Votes = append(c.Votes, v)
 	}
 	c.CPTime = uint64(rapid.IntRange(0, 1000).Draw(t, "cptime"))
+	c.CPOff = uint64(rapid.SampledFrom([]int{0, 0, 1, 250, 500, 501, 999}).Draw(t, "cpoff"))
 	nq := rapid.IntRange(1, 12).Draw(t, "nq")
 	for i := 0; i < nq; i++ {
 		c.Slots = append(c.Slots, rapid.IntRange(0, 45).Draw(t, "slot"))
@@ -86,7 +88,7 @@ func c15TableExec(c c15Table, x *pbt.Ctx) error {
 		seen[k] = true
 		votes[ck.PubHex(k)] = c.Votes[i]
 	}
-	cpTime := ck.GenesisTime + c.CPTime*ck.IntervalMs
+	cpTime := ck.GenesisTime + c.CPTime*ck.IntervalMs + c.CPOff%ck.IntervalMs
 
 	// reference: qualifying keys by votes desc, then key (hex string) desc, at most ten; federation otherwise
 	type kv struct {
